@@ -43,6 +43,10 @@ type Chan struct {
 	// selsends is the subset of sends originating from select operations.
 	selsends uint16
 	close    bool
+
+	// done is the completion flag of the receiver that published data for an
+	// unbuffered hand-off; the sender that fills data sets it.
+	done *bool
 }
 
 func NewChan(eltSize, cap int) *Chan {
@@ -98,6 +102,7 @@ func ChanTrySend(p *Chan, v unsafe.Pointer, eltSize int) bool {
 		if p.data != nil {
 			c.Memcpy(p.data, v, uintptr(eltSize))
 		}
+		*p.done = true
 		p.getp = chanNoSendRecv
 	} else {
 		if p.len == n || p.close {
@@ -135,6 +140,7 @@ func ChanSend(p *Chan, v unsafe.Pointer, eltSize int) bool {
 		if p.data != nil {
 			c.Memcpy(p.data, v, uintptr(eltSize))
 		}
+		*p.done = true
 		p.getp = chanNoSendRecv
 	} else {
 		for p.len == n {
@@ -160,6 +166,7 @@ func ChanTryRecv(p *Chan, v unsafe.Pointer, eltSize int) (recvOK bool, tryOK boo
 
 func chanTryRecv(p *Chan, v unsafe.Pointer, eltSize int, acceptSelectSend bool) (recvOK bool, tryOK bool) {
 	n := p.cap
+	done := new(bool)
 	p.mutex.Lock()
 	if n == 0 {
 		if p.sends == 0 || p.getp == chanHasRecv || p.close {
@@ -173,6 +180,7 @@ func chanTryRecv(p *Chan, v unsafe.Pointer, eltSize int, acceptSelectSend bool) 
 		}
 		p.getp = chanHasRecv
 		p.data = v
+		p.done = done
 	} else {
 		if p.len == 0 {
 			tryOK = p.close
@@ -190,10 +198,10 @@ func chanTryRecv(p *Chan, v unsafe.Pointer, eltSize int, acceptSelectSend bool) 
 	p.cond.Broadcast()
 	if n == 0 {
 		p.mutex.Lock()
-		for p.getp == chanHasRecv && !p.close {
+		for !*done && !p.close {
 			p.cond.Wait(&p.mutex)
 		}
-		recvOK = !p.close
+		recvOK = *done
 		tryOK = recvOK
 		p.mutex.Unlock()
 	} else {
@@ -204,6 +212,7 @@ func chanTryRecv(p *Chan, v unsafe.Pointer, eltSize int, acceptSelectSend bool) 
 
 func ChanRecv(p *Chan, v unsafe.Pointer, eltSize int) (recvOK bool) {
 	n := p.cap
+	done := new(bool)
 	p.mutex.Lock()
 	if n == 0 {
 		for p.getp == chanHasRecv && !p.close {
@@ -215,6 +224,7 @@ func ChanRecv(p *Chan, v unsafe.Pointer, eltSize int) (recvOK bool) {
 		}
 		p.getp = chanHasRecv
 		p.data = v
+		p.done = done
 	} else {
 		for p.len == 0 {
 			if p.close {
@@ -234,10 +244,10 @@ func ChanRecv(p *Chan, v unsafe.Pointer, eltSize int) (recvOK bool) {
 	p.cond.Broadcast()
 	if n == 0 {
 		p.mutex.Lock()
-		for p.getp == chanHasRecv && !p.close {
+		for !*done && !p.close {
 			p.cond.Wait(&p.mutex)
 		}
-		recvOK = !p.close
+		recvOK = *done
 		p.mutex.Unlock()
 	} else {
 		recvOK = true
